@@ -10,7 +10,7 @@
                  in creation order (nothing skipped, nothing invented, nothing delivered twice after a success)
      RetrySame   after a failed execution the next execution of that queue is of the same hook and starts with the same contexts
      NoLoss      at the end of a run every created object was part of a successful execution *)
-EXTENDS Integers, Sequences, FiniteSets, TLC, Json
+EXTENDS FiniteSets, Integers, Sequences, FiniteSets, TLC, Json
 
 CONSTANT TraceFile
 VARIABLES l, pending, running, lastFailed, ok, why
@@ -26,6 +26,9 @@ Init == /\ l = 1 /\ pending = [k \in Keys |-> <<>>] /\ running = [q \in Queues |
 Of(e, k) == SelectSeq(e.ctxs, LAMBDA c : e.hook \o "/" \o c.b = k)
 Names(s) == [i \in 1..Len(s) |-> s[i].name]
 IsPrefixOf(s, t) == Len(s) <= Len(t) /\ \A i \in 1..Len(s) : s[i] = t[i]
+SetOf(s) == {s[i] : i \in 1..Len(s)}
+Min2(a, b) == IF a < b THEN a ELSE b
+SameSet(s, t) == Len(s) = Len(t) /\ SetOf(s) = SetOf(t) /\ Cardinality(SetOf(s)) = Len(s)
 Bad(reason) == /\ ok' = FALSE /\ why' = reason /\ UNCHANGED <<pending, running, lastFailed>>
 
 Step(e) ==
@@ -36,7 +39,10 @@ Step(e) ==
          /\ pending' = [pending EXCEPT ![e.k] = Append(@, e.name)] /\ UNCHANGED <<running, lastFailed, ok, why>>
     [] e.e = "start" ->
          IF running[e.q] # "none" THEN Bad("overlap")
-         ELSE IF \E k \in Keys : ~IsPrefixOf(Names(Of(e, k)), pending[k]) THEN Bad("out-of-order-lost-or-duplicated")
+         ELSE IF \E k \in Keys : ~IsPrefixOf(Names(Of(e, k)), pending[k])
+                THEN \* the same objects as the oldest pending ones, in another order: the tasks were queued out of order
+                     IF \A k \in Keys : SameSet(Names(Of(e, k)), SubSeq(pending[k], 1, Min2(Len(Of(e, k)), Len(pending[k]))))
+                       THEN Bad("out-of-order") ELSE Bad("out-of-order-lost-or-duplicated")
          ELSE IF lastFailed[e.q].hook # "" /\ ~(lastFailed[e.q].hook = e.hook /\ IsPrefixOf(lastFailed[e.q].ctxs, e.ctxs)) THEN Bad("retry-different")
          ELSE /\ running' = [running EXCEPT ![e.q] = e.id] /\ UNCHANGED <<pending, lastFailed, ok, why>>
     [] e.e = "end" ->
